@@ -284,10 +284,29 @@ fn gen_tight(d: &mut Dec, depth: u32) -> Expr {
             5 => Expr::Value(Value::String((*d.pick(&["a\"b", "a\\b", "\\", "\"", "x\ny", "\\\"", "é\\n", ""])).to_string())),
             6 => Expr::Value(Value::Bool(d.bool())),
             7 => Expr::Value(Value::None),
+            // collections written out as literals of literals
+            8 => {
+                let lits = [Value::Int(1), Value::Int(2), Value::String("s\\".into()), Value::Bool(true), Value::None, Value::Float(1.5)];
+                let n = d.below(4);
+                let items: Vec<Expr> = (0..n).map(|_| Expr::Value(d.pick(&lits).clone())).collect();
+                if d.below(4) == 0 {
+                    Expr::Map(items.into_iter().enumerate().map(|(i, e)| (format!("k{i}"), e)).collect())
+                } else {
+                    Expr::Vec(items)
+                }
+            }
             _ => Expr::reff("a"),
         };
     }
-    match d.below(12) {
+    match d.below(14) {
+        // built-in calls and casts around tight operators
+        12 | 13 => {
+            let k = *d.pick(&[
+                "int", "float", "dec", "datetime", "duration", "is_some", "is_none", "uppercase", "lowercase", "trim", "round", "floor", "fract", "year",
+                "month", "week", "day", "hour", "minute", "second",
+            ]);
+            mk1(k, gen_tight(d, depth - 1))
+        }
         0 | 1 | 2 => {
             let k = *d.pick(&["bitand", "bitor", "bitxor"]);
             let a = gen_tight(d, depth - 1);
